@@ -199,3 +199,49 @@ def geo_forward(sc, fc, omega_deg, p, t=(0, 0, 0)):
 
 def eta_diff(a, b):
     return (np.asarray(a) - np.asarray(b) + 180.0) % 360.0 - 180.0
+
+
+def geo_simulate(g, p, t=(0, 0, 0)):
+    """Independent forward model: for g-vectors (3,n) in the sample frame return, for both
+    omega solutions, detector positions.  Returns dict of arrays of shape (2,n):
+    sc, fc, omega (as observed, i.e. divided by omegasign), ok (diffracts and hits the detector plane
+    in the forward direction)."""
+    g = np.asarray(g, float)
+    n = g.shape[1]
+    wv = p["wavelength"]
+    a = geo_C(p["chi"]) @ (geo_W(p["wedge"]) @ np.array([1.0, 0, 0]))
+    A = a[0] * g[0] + a[1] * g[1]
+    B = a[1] * g[0] - a[0] * g[1]
+    T = -wv * (g * g).sum(axis=0) / 2 - a[2] * g[2]
+    den = np.hypot(A, B)
+    with np.errstate(divide="ignore", invalid="ignore"):
+        q = T / den
+    can = (den > 0) & (np.abs(q) < 1)
+    qq = np.where(can, q, 0.0)
+    base = np.arctan2(B, A)
+    P0 = geo_xyz_lab([0.0], [0.0], p)[:, 0]
+    dS = geo_xyz_lab([1.0], [0.0], p)[:, 0] - P0
+    dF = geo_xyz_lab([0.0], [1.0], p)[:, 0] - P0
+    out = dict(sc=np.zeros((2, n)), fc=np.zeros((2, n)), omega=np.zeros((2, n)), ok=np.zeros((2, n), bool))
+    for k, sgn in enumerate((1.0, -1.0)):
+        om = base + sgn * np.arccos(qq)                       # effective omega, radians
+        c, s = np.cos(om), np.sin(om)
+        qv = np.array([c * g[0] - s * g[1], s * g[0] + c * g[1], g[2]])     # Rz(om).g
+        kv = geo_W(p["wedge"]).T @ (geo_C(p["chi"]).T @ qv)
+        sdir = kv * wv
+        sdir[0] += 1.0                                        # unit vector along the scattered beam
+        omdeg = np.degrees(om)
+        org = geo_grain_origins(omdeg, p, t)
+        # intersect org + r*sdir with the plane P0 + s*dS + f*dF
+        nrm = np.cross(dS, dF)
+        denom = nrm @ sdir
+        with np.errstate(divide="ignore", invalid="ignore"):
+            r = (nrm @ (P0[:, None] - org)) / denom
+        hit = org + r * sdir - P0[:, None]
+        M = np.array([dS, dF]).T                              # 3x2
+        sf = np.linalg.lstsq(M, hit, rcond=None)[0]
+        out["sc"][k] = sf[0]
+        out["fc"][k] = sf[1]
+        out["omega"][k] = omdeg / p.get("omegasign", 1.0)
+        out["ok"][k] = can & np.isfinite(r) & (r > 0)
+    return out
